@@ -69,7 +69,6 @@ theorem tcol_resolves_by_identity (env : Env) (t t' : Tbl) (aiw : Bool) (tv name
     (hscope : t.cache.cols = t'.cache.cols) :
     resolveExpr env t aiw (.tcol tv name) = resolveExpr env t' aiw (.tcol tv name) := by
   simp only [resolveExpr, Cache.col?, hscope]
-  rfl
 
 /-- `C.x` resolves through the current name ↦ UUID map of the table the verb is applied to -/
 theorem cname_resolves_by_name (env : Env) (t : Tbl) (aiw : Bool) (name : String) (u : Uid) (m : ColMeta)
